@@ -11,3 +11,14 @@ func debugFn(eng *Engine, key string) {
 		}
 	}
 }
+
+func debugLoops(eng *Engine, key string) {
+	fn := eng.fnByKey[key]
+	eng.loopInfo(fn, fn.Blocks[0])
+	for _, l := range eng.loops[fn] {
+		fmt.Printf("loop %d header block %d (%s) at %s, body %d blocks\n", l.Ordinal, l.Header.Index, l.Header.Comment, eng.fset.Position(blockPos(l.Header)), len(l.Body))
+		for _, ins := range l.Header.Instrs {
+			fmt.Println("    ", ins.String())
+		}
+	}
+}
